@@ -32,17 +32,17 @@ PROP = {'rule': 'rapid-generated cases. loop (KillAndEvictPods): 1-3 tasks over 
  'units': [{'name': 'loop',
             'pkg': 'pkg/koordlet/qosmanager/plugins/util',
             'files': ['C11/c11_loop_test.go'],
-            'tests': [{'run': 'TestVerifC11Loop', 'quick': 4000, 'thorough': 20000}]},
+            'tests': [{'run': 'TestVerifC11Loop', 'quick': 4000, 'thorough': 80000}]},
            {'name': 'mem',
             'pkg': 'pkg/koordlet/qosmanager/plugins/memoryevict',
             'files': ['C11/c11_mem_test.go'],
-            'tests': [{'run': 'TestVerifC11MemLists', 'quick': 2000, 'thorough': 5000},
-                      {'run': 'TestVerifC11MemEndToEnd', 'quick': 2000, 'thorough': 5000}]},
+            'tests': [{'run': 'TestVerifC11MemLists', 'quick': 2000, 'thorough': 20000},
+                      {'run': 'TestVerifC11MemEndToEnd', 'quick': 2000, 'thorough': 20000}]},
            {'name': 'cpu',
             'pkg': 'pkg/koordlet/qosmanager/plugins/cpuevict',
             'files': ['C11/c11_cpu_test.go'],
-            'tests': [{'run': 'TestVerifC11CPULists', 'quick': 2000, 'thorough': 5000},
-                      {'run': 'TestVerifC11CPUEndToEnd', 'quick': 2000, 'thorough': 5000}]}],
+            'tests': [{'run': 'TestVerifC11CPULists', 'quick': 2000, 'thorough': 20000},
+                      {'run': 'TestVerifC11CPUEndToEnd', 'quick': 2000, 'thorough': 20000}]}],
  'manifest': {'technique': 'property-based testing (rapid): generated task sets / victim lists / failure patterns against a recording '
                            'eviction executor with an independent running-total oracle; generated pod sets against restated eligibility '
                            'and ordering rules; end-to-end runs of memoryEvict()/cpuEvict() with fake informer and metric cache',
